@@ -9,12 +9,13 @@ MB = "solver-decided call-order / error-propagation obligations over the MIR con
 
 C = {
  "C02": ("other", MB, "mirsym", "Decides only that the SHA-256 recorded for a file is always a digest of the hashed bytes (must-call obligation over ShaGenerator::finalize's MIR); the xorb / file-record consistency part of C02 could not be brought through CBMC and is stated as outside.", "Trusted: MIR as printed by rustc nightly, sha2, tokio JoinHandle contract; paths over-approximated (unsat sound)."),
- "C04": ("model_checking", KANI, "kani", "Bounded model checking of the real Chunker::next: for call sequences (300 bytes in one call; 10/20/100 bytes in three calls) and ANY answers of the rolling hash (recording oracle) the chunker hashes exactly the bytes from index min-64-1 of each chunk, contiguously across calls, from state 0 after a cut, never beyond max, cuts where the hash says or at max, flushes on final, preserves bytes. Thorough adds the real gear hash on 24 bytes against a reference rule.", "Hash function abstracted by an oracle (fold property of the rolling hash is an argument, not a solver result); target 128 with MINIMUM_CHUNK_DIVISOR=1 via stubbed env; memory-safety checks off (safe Rust)."),
+ "C03": ("other", MA + " (data-flow provenance) ; " + MB, "mirsym", "Decides by symbolic execution of the MIR that the pointer's hash is exactly file_node_hash(the FileDeduper's accumulated chunk list, the configured repo salt), its size exactly the total_bytes metric, and that every successful process_chunks call appends (hash, len) of each chunk once. Independence of the chunk list from the add_data partition is C04 + C14 (tiling); total_bytes == bytes fed is C14.", "file_node_hash deterministic (blake3, not decided); concurrency of cleaners and an end-to-end two-run comparison are outside."),
+ "C04": ("model_checking", MA + "; " + KANI, "kani+mirsym", "mirsym Mode A: one call of Chunker::next from ANY state satisfying the representation invariant, any min < max, any rolling-hash answer: skip of min-64-1 bytes resumed across calls, scan never beyond max, cut exactly at the reported boundary or at max, length / hash reset on a cut, length accumulates otherwise, no panic. Kani: bounded model checking of the real Chunker::next for call sequences (300 bytes in one call; 10/20/100 bytes in three calls) and ANY answers of the rolling hash (recording oracle) the chunker hashes exactly the bytes from index min-64-1 of each chunk, contiguously across calls, from state 0 after a cut, never beyond max, cuts where the hash says or at max, flushes on final, preserves bytes. Thorough adds the real gear hash on 24 bytes against a reference rule.", "Hash function abstracted by an oracle (fold property of the rolling hash is an argument, not a solver result); target 128 with MINIMUM_CHUNK_DIVISOR=1 via stubbed env; memory-safety checks off (safe Rust)."),
  "C05": ("model_checking", KANI, "kani", "Bounded model checking of MDBShardInfo::chunk_hash_dedup_query_direct over fully symbolic serialized CAS blocks (3 chunks quick, 4 thorough), queries and keys: every answer is truthful.", "blake3 keyed hash replaced by a deterministic mixing stub; CAS block representation invariant assumed; in-memory index and shard manager histories outside."),
  "C07": ("model_checking", KANI, "kani", "Bounded model checking of the chunk header codec for all 2^24 x 2^24 x 3 (length, length, scheme) triples and of BG4 split/regroup (unsafe pointer code, memory checks on) for lengths 1,2,3,8 (13,14,15 thorough).", "LZ4 codecs, chunk payload (de)serialization through std::io::copy and whole-xorb round trips did not get through CBMC (measured) and are outside."),
  "C08": ("model_checking", MA, "mirsym", "Symbolic execution of the xorb footer parsers' MIR with every field read from the input a free variable: every overflow check is a verification condition and every allocation size must be bounded by a constant. Found and (after the fix) excludes the unbounded resize / overflow in deserialize_only_boundaries_section.", "Reader calls havocked; loops entered at most once; panics inside callee bodies not seen; hash agreement of validate_cas_object outside."),
  "C11": ("other", MB, "mirsym", "Solver-decided registration obligations over the upload session's MIR: a (non-empty) xorb reaches the uploader only after its chunk list was added to the session shard, on both the mid-file and the aggregated path; an uploaded shard is exported to the cache and registered before Ok. Violations are confirmed by a native two-session re-upload replay.", "Paths over-approximated; ShardFileManager makes added CAS blocks visible (C05/C09 side); the quantitative 'no new bytes for any recombination' is outside."),
- "C12": ("model_checking", KANI, "kani", "Bounded model checking of the chunk cache's directory-name and file-name parsers on arbitrary byte strings of the stated lengths: no panic, parsed items have non-empty ranges.", "fmt stubs; memory-safety checks off (safe Rust, base64 decode); histories of put/get/evict/re-open and CRC detection outside."),
+ "C12": ("model_checking", KANI + "; " + MB, "kani+mirsym", "Bounded model checking of the chunk cache's directory-name and file-name parsers on arbitrary byte strings of the stated lengths: no panic, parsed items have non-empty ranges. Mode B over get_impl: an unverified item reaches the data only through the checksum computation, is marked verified only after its checksum compared equal, a mismatch leads to removal and a new lookup.", "fmt stubs; memory-safety checks off (safe Rust, base64 decode); histories of put/get/evict/re-open and CRC detection outside."),
  "C13": ("model_checking", MA, "mirsym", "Inductive step over DiskCache::put_impl's MIR from an arbitrary tracked state (including an item equal to the one being inserted - the state only the duplicate-put interleaving reaches): every item leaving the tracked vector is subtracted with exactly its length; counters change by exactly the removed / inserted amounts around eviction; eviction is asked for exactly the new item's length.", "Calls havocked (incl. writes through &mut arguments); eviction loop and re-open accounting outside; the interleaving itself is replayed natively through a guarded schedule point."),
  "C14": ("model_checking", MA + "; " + MB, "mirsym", "Inductive step of FileDeduper::process_chunks' result loop from an arbitrary state: chunks/bytes counted == consumed, new + deduped == total on every path; merge_in is a field-wise sum; (Mode B) the session metrics are read out only after all upload tasks were joined.", "Dedup answers truthful (C05); calls havocked; the store's own transmitted-byte count taken as given."),
  "C15": ("model_checking", MA + "; " + MB, "mirsym", "Inductive step from an arbitrary state: a chunk appended to the open xorb without cutting first keeps it within MAX_XORB_BYTES / MAX_XORB_CHUNKS (any configured values); the session merges aggregators only when both sums are within the limits; an empty xorb never reaches the store (Mode B). Chunk-header field limits are decided under C07.", "Vec::len / num_bytes / num_chunks report true sizes; a single chunk fits a xorb (C04/C07); 'no unresolved xorb reference' needs the infeasible FileDeduper harness and is outside."),
@@ -25,7 +26,6 @@ C = {
 }
 NA = {
  "C01": "end-to-end upload/download needs FileDeduper/DataAggregator segment bookkeeping under symbolic dedup structure: Kani cannot get hashbrown + vectors of symbolic length through CBMC (measured: > 10 GB / no termination at 2-3 chunks, DESIGN.md section 6) and the sessions are tokio; the decidable pieces are claimed under C04, C07, C14, C17",
- "C03": "pointer (hash,size) independence from partition/dedup needs two FileDeduper runs under Kani (infeasible, see C01); the size half is decided by C14's inductive step, chunk-boundary independence by C04",
  "C06": "blake3 is C/asm FFI that Kani cannot execute; the pure-Rust construction harnesses (MerkleMemDB vs cas_node_hash) were not reached within the time budget",
  "C09": "interpolation search (f64 arithmetic bit-blasted) and shard serialization through Cursor/Vec were not reached within the time budget after the CBMC cost of Vec/io::copy became clear",
  "C10": "set operations over serialized shards (Cursor + Vec writers) exceed what CBMC finished here; the consolidation ordering part is decided under C19",
@@ -59,8 +59,8 @@ def main():
             "add_only": True,
         },
         "engines": [
-            {"name": "kani", "path": "lib/kanirun.py", "serves_properties": sorted(p for p, v in C.items() if v[2] == "kani"), "kind_free_text": "Kani 0.68 / CBMC 6.11 bounded model checking via out-of-tree harness crates (kani/hk_*) with path deps on /repo"},
-            {"name": "mirsym", "path": "lib/mirsym", "serves_properties": sorted(p for p, v in C.items() if v[2] == "mirsym"), "kind_free_text": "MIR -> SMT-LIB encoder written here: Mode A symbolic execution of regions (bit-vectors), Mode B path-existence obligations over CFGs; cvc5 1.0 and z3 4.8.12"},
+            {"name": "kani", "path": "lib/kanirun.py", "serves_properties": sorted(p for p, v in C.items() if "kani" in v[2]), "kind_free_text": "Kani 0.68 / CBMC 6.11 bounded model checking via out-of-tree harness crates (kani/hk_*) with path deps on /repo"},
+            {"name": "mirsym", "path": "lib/mirsym", "serves_properties": sorted(p for p, v in C.items() if "mirsym" in v[2]), "kind_free_text": "MIR -> SMT-LIB encoder written here: Mode A symbolic execution of regions (bit-vectors), Mode B path-existence obligations over CFGs; cvc5 1.0 and z3 4.8.12"},
         ],
         "checks": checks,
         "not_applicable": [{"property_id": k, "reason": v} for k, v in sorted(NA.items())],
